@@ -381,6 +381,13 @@ pub fn unit_history(ctx: &Ctx, u: usize) -> History {
         let n = r.range(33, 70);
         h.calls.push(Call::FeedStr(format!("\x1b[{}m\x1b[38:2{}m", vec!["1"; n].join(";"), ":7".repeat(r.range(5, 12)))));
     }
+    if u % 211 == 0 {
+        // the largest sizes util::TextCollector::resize can ask for (u16), widening only
+        let tall = u % 422 == 0;
+        h.calls.push(if tall { Call::Resize(h.cols.min(3), 65535) } else { Call::Resize(65535, h.rows.min(2)) });
+        h.calls.push(Call::FeedStr("xy\x1b[65535;65535Hz\x1b[65535b\x1b[65535@\x1b[65535P\x1b[65535X".into()));
+        h.calls.push(if tall { Call::Resize(h.cols.min(3) + 1, 65535) } else { Call::Resize(65535, h.rows.min(2) + 1) });
+    }
     if u % 13 == 0 {
         // scalar soup, 1-64 KiB
         let len = if ctx.thorough { r.range(1024, 65536) } else { r.range(256, 8192) };
